@@ -8,6 +8,8 @@ import (
 	"time"
 
 	"simrt"
+
+	"github.com/jwhited/corebgp"
 )
 
 // Property is one checkable property: Run is the root script of a run.
@@ -57,6 +59,7 @@ func RunOne(t *testing.T, prop *Property, tier string, tp *Tape, keepLog bool) (
 			s.Dial = w.Net.dial
 			simrt.Install(s)
 			defer simrt.Uninstall()
+			defer corebgp.SetLogger(nil)
 			s.SelectHook = func(site string, n, chosen int, blocked bool) {
 				// reach probes for the peer manager's multi-way selects (collision kill race etc.)
 				if n >= 3 && len(site) > 7 && site[:7] == "peer.go" {
